@@ -454,6 +454,24 @@ def check_state(case):
                                              "cores": [sl.start, sl.stop]})
     except InsufficientResourceError:
         cls.append("fragmented-idle-cores")
+    # ---- the description is a dictionary the program may edit (a chip it
+    # does not want to use is deleted): what is derived from it afterwards
+    # follows the edit
+    if len(responding) >= 2:
+        victim = sorted(responding)[case["w"] % len(responding)]
+        dead_before = set(si.dead_chips())
+        with sut("editing the system description"):
+            del si[victim]
+            dead_after = set(si.dead_chips())
+            machine2 = build_machine(si)
+        require(dead_after == dead_before | {victim}, "dead_chips() of an "
+                "edited system description does not list the chip that was "
+                "deleted from it", {"deleted": list(victim)})
+        require(victim not in machine2 and
+                set(machine2) == responding - {victim},
+                "build_machine of an edited system description does not "
+                "contain exactly the chips left in it",
+                {"deleted": list(victim)})
     patterns = set(tuple(spec[c]["states"][:spec[c]["cores"]])
                    for c in responding)
     dead_or_silent = len(all_xy - responding) > 0
